@@ -50,9 +50,17 @@ def plan(tier, seed):
 def setup_worker(ctx):
     common.setup(ctx, ANCHORS)
     ctx.root = tempfile.mkdtemp(prefix="pv-c16-", dir=os.environ.get("TMPDIR"))
+    # a tight descriptor budget: every worker makes several hundred reads and writes of every source/destination kind; a kind that
+    # keeps a descriptor per call runs out (EMFILE) long before the run ends and then disagrees with the others by raising
+    import resource
+    soft, hard = resource.getrlimit(resource.RLIMIT_NOFILE)
+    resource.setrlimit(resource.RLIMIT_NOFILE, (min(192, soft), hard))
+    ctx.fds_at_start = len(os.listdir("/proc/self/fd"))
 
 
 def finish_worker(ctx):
+    ctx.count("open_descriptors.at_start", ctx.fds_at_start)
+    ctx.count("open_descriptors.at_end", len(os.listdir("/proc/self/fd")))
     common.finish(ctx)
     shutil.rmtree(ctx.root, ignore_errors=True)
 
